@@ -127,3 +127,19 @@ def register(claim):
         'positional rotational limit inside its range (geometric identity).',
         'whole-kernel algebraic value numbering + scenario substitution of gate atoms',
         'DESIGN.md §3 C06')
+
+  claim('C04', 'other',
+        'Static law check on the whole pipeline step: spring/positional pipeline.step and everything '
+        'they call (scan regrouping, actuator, joints, collisions, integrators, com) are abstractly '
+        'interpreted from their AST on symbolic states of a free-rooted chain f-1-1 (actuators, '
+        'limits) and of two free bodies with two contacts; the returned total linear momentum '
+        'equals previous + total mass x gravity x dt as an identity, decided by random '
+        'interpretation (images of the normal forms in GF(2^61-1): an identity of polynomials holds '
+        'in every trial, a non-identity is refuted with probability > 1 - 1e-15 per trial), plus '
+        'exact polynomial leaf laws for the PBD pair kernels and one-effective-mass provenance.',
+        'Trusted: python ast, AVN interpreter and primitive table, opaque contracts for the branchy '
+        'trigonometric joint-frame helpers and the trailing joint-coordinate read-back (momentum does '
+        'not depend on them), finite intermediate values.  Not decided: exact rest (first law) at '
+        'arbitrary rest poses; multi-body contact averaging; conservation to round-off as a number.',
+        'algebraic value numbering of the whole step, decided by random interpretation in GF(p)',
+        'DESIGN.md §3 C04')
